@@ -2,10 +2,13 @@
 
 Case kinds: `dp` / `vw` (list-level model: kept indices), `trk` (Track-level model: the Track object returned by
 douglas_peucker / visvalingam / simplify in its various call forms, and the input track's snapshot), `mode` (the dispatcher),
-`dist` / `area` (point-wise geometry), flag `wild` (coordinates outside any ENU frame: correspondence only).
+`coll` (TrackCollection.simplify(tolerance[, mode]) on a collection of such Track objects: `tracks` is a list of `trk` sub-cases, `mode` an int or
+None = the argument is not given), `dist` / `area` (point-wise geometry), flag `wild` (coordinates outside any ENU frame: correspondence only).
 Optional fields of a `trk` case: `nodata` (the track's `no_data_value` attribute; fixes whose coordinates equal it are the readers'
 placeholders), `coords` (`ENU` default, `GEO`, `ECEF`: the class of the positions), `src` (`obj` default: built with Obs/Track;
-`csv`: written to a file and read back with TrackReader.readFromFile), via `network` (Network.simplify on an edge geometry)."""
+`csv`: written to a file and read back with TrackReader.readFromFile), via `network` (Network.simplify on an edge geometry).
+Style `deep-*`: several hundred fixes whose Douglas-Peucker split chain is hundreds of levels deep. A case must be well formed (well_formed():
+what the generators can produce); impl() answers {"harness": why} when the INPUT of a case cannot be built -- never an implementation failure."""
 import itertools, math, os, tempfile, datetime, shutil
 from fractions import Fraction
 from engine import Prop, fbits, bitsf, close, ratstr, parse_rat
@@ -118,6 +121,15 @@ def num_repr(v):
     return repr(float(v)) if isinstance(v, float) else str(v)
 
 
+VW_ALL_MAX_N = 60     # Visvalingam's runs with another choice among equally small triangles are enumerated level by level (Model/SimplifyTie.lean,
+                      # visvalingamAll) for tracks of at most VW_ALL_MAX_N fixes, up to vw_cap(n) states per level; beyond: only the code's own run
+
+
+def vw_cap(n):
+    """states per level: everything for tracks of <= 11 fixes (at most C(9,4) = 126 sets of removed interior fixes), 32 for longer ones"""
+    return 130 if n <= 11 else 32
+
+
 TINY_TOLS = [5e-324, 1e-320, 1e-300, 1e-200, 1.5e-162, 1e-100, 1e-30]
 HUGE_TOLS = [1e154, 1.3407807929942597e154, 1.4e154, 1e200, 1e308, 1.7976931348623157e308]   # eps*eps is infinite from 1.3407807929942597e154 on
 
@@ -136,6 +148,64 @@ def collinear_run(xs, ys):
         if (xs[i + 1] - xs[i]) * (ys[i + 2] - ys[i + 1]) == (xs[i + 2] - xs[i + 1]) * (ys[i + 1] - ys[i]):
             return True
     return False
+
+
+class HarnessCase(Exception):
+    """the harness could not BUILD the input a case describes (plumbing: Obs/Track construction, the CSV file written and read back,
+    the network around an edge geometry). Never an implementation failure of the property: impl() answers {"harness": why}, on which the
+    oracle is silent and the correspondence check reports the case as not built (when the case is well formed)"""
+
+
+def well_formed(case):
+    """is the case one the generators can produce: parallel lists of equal length, and -- for a track made by the CSV reader -- a
+    description the reader can honour (see csv_ok)? mutate() and shrink() only propose well-formed cases: a candidate that the harness
+    itself cannot build says nothing about the implementation"""
+    k = case.get("kind")
+    if k == "coll":
+        return isinstance(case.get("tracks"), list) and all(isinstance(t, dict) and t.get("kind") == "trk" and well_formed(t) for t in case["tracks"])
+    if k not in ("dp", "vw", "trk"):
+        return True
+    n = len(case["xs"])
+    if len(case["ys"]) != n:
+        return False
+    if k == "trk":
+        if case.get("zs") and len(case["zs"]) != n:
+            return False
+        if case.get("ts") and len(case["ts"]) != n:
+            return False
+        if len(case["rows"]) != n or any(len(r) != len(case["names"]) for r in case["rows"]):
+            return False
+        if case.get("src") == "csv" and not csv_ok(case):
+            return False
+    return True
+
+
+def csv_ok(case):
+    """does TrackReader.readFromFile make exactly the track the case describes from the file mk_trk_csv writes? The reader turns a line
+    whose E or N field is NA -- or whose int(E) or int(N) equals no_data_value -- into a placeholder fix at (nd, nd, nd); so every fix
+    of the case is either such a placeholder in all three coordinates (z = 0 when the file has no U column) or has int(x), int(y) != nd;
+    timestamps are whole seconds >= 0 (the file's time format), coordinates finite, no_data_value an int"""
+    nd = case.get("nodata")
+    if not isinstance(nd, int) or isinstance(nd, bool):
+        return False
+    n = len(case["xs"])
+    if n < 1 or "@aire" in case["names"]:
+        return False
+    ts = case.get("ts") or list(range(n))
+    if any((not isinstance(t, int)) or isinstance(t, bool) or t < 0 or t > 4000000000 for t in ts):
+        return False
+    zs = case.get("zs") or [0] * n
+    if len(zs) != n or len(ts) != n:
+        return False
+    for i in range(n):
+        x, y, z = fv(case["xs"][i]), fv(case["ys"][i]), fv(zs[i])
+        if not all(isinstance(v, (int, float)) and not isinstance(v, bool) and math.isfinite(v) for v in (x, y, z)):
+            return False
+        if x == nd and y == nd and z == nd:
+            continue
+        if int(x) == nd or int(y) == nd:
+            return False
+    return True
 
 
 class P(Prop):
@@ -162,18 +232,30 @@ class P(Prop):
         (M, "TV.C16.vw_track_ends", "T9: with T6's hypothesis the first and last observation (feature rows included) of the Track are kept"),
         (M, "TV.C16.vw_removeObs_is_C04", "composition with C04: output.removeObs(id) (TV.Seq.removeObs, the model of removeObsList([id]) used by the Track-level loop) is the eraseIdx of the list-level loop; the + of Douglas-Peucker uses C04's sameNames rule as it is"),
         (M, "TV.C16.simplify_dispatch", "simplify(track, tol, 1) is douglas_peucker, mode 2 is visvalingam, a mode outside 1..8 raises (NameError); modes 3..8 call other functions, outside the statement"),
-        (M, "TV.C16.vw_sentinel_first_pass", "T6' (round 1's open statement, now proved): when no interior fix has an initial area below ARGMIN's initial minimum (+inf since 68863c7: the areas are inf or NaN), ARGMIN answers 0, NaN > eps is False, and the first pass removes the FIRST observation; any scalar type"),
+        (M, "TV.C16.vw_sentinel_first_pass", "T6' (round 1's open statement, as it stands since b728412): when no interior fix has an initial area below ARGMIN's initial minimum or equal to it (+inf since 68863c7: every area is NaN), ARGMIN records no index and answers 0, NaN > eps is False, and the first pass removes the FIRST observation; any scalar type"),
+        (M, "TV.C16.vw_first_pass_found", "T6'' (what b728412 repaired, seen from Visvalingam): as soon as one interior fix has an initial area that is a number below ARGMIN's initial minimum or EQUAL to it (an infinite area), the first pass removes an observation other than the first; any scalar type, any tolerance"),
         (M, "TV.C16.vw_all_below", "T11: when no triangle of the track has an area > eps*eps (in particular eps*eps = +inf: every tolerance from 1.34e154 up to the largest double, since b704eae) Visvalingam returns exactly the first and the last observation; under T6's hypothesis, any scalar type"),
         (M, "TV.C16.vw_any", "T12 (no hypothesis on the areas: infinite, NaN, mixed columns, every pass; any scalar type, the Float model included): Visvalingam's result is a sub-sequence of the input observations, the LAST observation is kept, a track of >= 2 observations keeps >= 2, and the loop stops by itself within len(track) passes"),
         (M, "TV.C16.vw_track_any", "T12 on the Track object (well-formed feature table without '@aire', non-empty track, any areas): the call succeeds, the observations returned (feature rows included) are a sub-sequence, the last observation is kept, >= 2 observations of >= 2"),
         (M, "TV.C16.simplify_nodata", "simplify() never reads track.no_data_value (set by the readers): the observations returned for a track carrying the attribute are those returned without it -- no placeholder fix is left out --, errors included; the result's own attribute is None after Douglas-Peucker (a new Track) and the input's after Visvalingam (the copy)"),
         (M, "TV.C16.simplify_nodata_dp_correct", "the statement of C16 for Douglas-Peucker through simplify() on a reader-made track (ordered field, exact sqrt): whatever no_data_value and wherever the placeholder fixes (first and last included), a result exists, is a sub-sequence of ALL input observations with both ends, and every input observation is within eps of the returned polyline"),
         (M, "TV.C16.net_simplify_each", "Network.simplify(tolerance, mode) is simplify() on every edge geometry in the edges' order: when it succeeds the i-th geometry is what simplify returns for the i-th input geometry"),
+        (M, "TV.C16.coll_simplify_each", "T15: TrackCollection.simplify(tolerance, mode=1) (039f340) returns, in the collection's order and as many as the collection has, what simplify(track, tolerance, mode) returns for every track; a failure is the failure of one of these calls; an empty collection comes back empty whatever the mode; the default mode is 1"),
+        (M, "TV.C16.coll_simplify_invalid_mode", "T15: on a non-empty collection a mode outside 1..8 raises NameError (from the first track)"),
+        (M, "TV.C16.coll_simplify_vw", "T15, C16 for Visvalingam on every track of a collection (any scalar type, any tolerance, any areas; tracks non-empty with a well-formed feature table without '@aire'): the call succeeds and, track by track, sub-sequence of the observations (feature rows included), last observation kept, >= 2 of >= 2, dict / uid / tid / base / no_data_value the track's; first observation kept under T6's hypothesis"),
+        (M, "TV.C16.coll_simplify_dp_correct", "T15, C16 for Douglas-Peucker on every track of a collection through the DEFAULT mode (ordered field, exact sqrt): for every collection (empty, tracks of 0, 1, 2 fixes, placeholder fixes, closed loops) and eps > 0 the call returns one track per track, each a sub-sequence of the observations with both ends, no_data_value None, every input fix of a track of >= 2 fixes within eps of the returned polyline"),
         (M, "TV.C16.dp_tolerance_any_arithmetic", "T5' (robust tolerance; ANY arithmetic -- rounded, saturating --, only `<` a linear order, as on doubles away from NaN): if a fix whose COMPUTED distance to a chord is < eps is accepted for that chord (W, any predicate: e.g. true distance <= eps + rounding slack) and a vertex is accepted for the segments it ends, then every input fix is accepted for a segment between consecutive vertices of the OUTPUT: the recursion, split and concatenation add no error; T5 is the exact instance (example)"),
         (M, "TV.C16.dp_any_tiebreak_tolerance_any_arithmetic", "T5' for every run with another choice among equally far fixes (the runs the correspondence check accepts)"),
         (M, "TV.C16.dp_total_zero_laws", "T3' (termination under rounded arithmetic): on a total order whose arithmetic satisfies six zero laws (x-x=0, 0*x=0, 0+0=0, 0/x=0, x+0=x, sqrt 0=0: true of IEEE doubles on finite values; example: integers with truncating division and integer sqrt) distance_to_segment(A; A, B) computes 0 in either branch of `l == 0`, so douglas_peucker returns on every track for every eps > 0"),
         (M, "TV.C16.dp_correct_any_arithmetic", "C16 for Douglas-Peucker under any arithmetic on a total order: given distance_to_segment(A; A, B) never > 0 (checked bit-exactly by the `dist` stream) the call returns, the result is a sub-sequence with both ends, every input fix is accepted (T5')"),
         (M, "TV.C16.vw_threshold", "T10 (threshold semantics; ANY arithmetic on a linear order since this pass -- the areas are the COMPUTED ones, so it is a statement about the float run away from NaN): under T6's hypothesis every interior fix of Visvalingam's result spans with its two neighbours in the result a triangle of area > eps^2 (the '@aire' column stays consistent with the current neighbours; ARGMIN designates a smallest entry)"),
+        (M, "TV.C16.vw_any_tiebreak_sublist", "T13 (the freedom left by ties in Visvalingam; no hypothesis at all): whichever of several equally small triangles is eliminated at each pass (VwAnyResult: all such runs; the code takes ARGMIN's first minimum), the result is a sub-sequence of the input observations; any scalar type, any areas"),
+        (M, "TV.C16.vw_any_tiebreak", "T13: under T6's hypothesis (finite areas) every such run keeps the first and the last observation and >= 2 observations; any scalar type, any tolerance"),
+        (M, "TV.C16.vw_any_tiebreak_any_areas", "T13 without hypothesis (T12 for every run): whatever the areas and whichever of the equally small triangles goes first, sub-sequence, LAST observation kept, >= 2 observations of >= 2; any scalar type"),
+        (M, "TV.C16.vw_own_run_is_tiebreak_run", "T13: what visvalingam returns (first minimum at every pass) is one of these runs; no hypothesis"),
+        (M, "TV.C16.vw_all_levels_sound", "T13: every result of visvalingamAll -- the driver's level-by-level enumeration (states with the same observations merged, given up beyond `cap` states per level) that the correspondence check accepts for Visvalingam -- is such a run"),
+        (M, "TV.C16.vw_any_tiebreak_threshold", "T10 for every run of T13 (any arithmetic on a linear order, T6's hypothesis): every interior fix of the result spans with its neighbours in the result a triangle of computed area > eps^2"),
+        (M, "TV.C16.vw_first_kept_iff", "T14 (mixed columns: some areas finite, some infinite / NaN; any scalar type, any tolerance, observations pairwise different): Visvalingam keeps the FIRST observation if and only if every pass of its loop finds a minimum (some '@aire' entry is a number below ARGMIN's initial minimum +inf or -- since b728412 -- equal to it: only NaN is not found); T6 / T6' are the two extreme cases"),
     ]
     partial = []
     open_statements = [
@@ -181,17 +263,29 @@ class P(Prop):
         "pointwise statement about distance_to_segment -- `computed distance < eps  =>  true distance <= eps(1+1e-9) + 1e-13 M` -- which is not proved (an error analysis of the "
         "formula in IEEE arithmetic) but sampled: by the `dist` stream (|computed - exact| <= 1e-9 relative + 1e-12 M) and by the transfer check on whole tracks with that slack "
         "(T1, T2, T6, T12 and the scalar-independent T3 do apply to the Float model as they assume nothing about the scalar; T5', T10 assume only a total order)",
-        "Visvalingam when areas are infinite or NaN, i.e. not below ARGMIN's initial minimum +inf (coordinates ~1e154 and more, not ENU tracks): T12 (vw_any) now proves, "
-        "for every column and every pass, sub-sequence, last observation kept, >= 2 kept and termination; T6' proves that the first pass removes the FIRST fix when no "
-        "area is below the sentinel. Still open: an input-level characterisation of when the first observation survives a MIXED column (some areas finite, some not) -- "
+        "Visvalingam when areas are infinite or NaN, i.e. not below ARGMIN's initial minimum +inf (coordinates ~1e154 and more, not ENU tracks): T12 (vw_any) proves, "
+        "for every column and every pass, sub-sequence, last observation kept, >= 2 kept and termination; T14 (vw_first_kept_iff) characterises the mixed "
+        "columns at the level of the passes: the first observation survives iff every pass finds an entry that is a number <= the sentinel (since b728412 an infinite "
+        "area IS found, only a column of NaN is not: T6'' / T6' are the extreme cases). T6 itself (both ends kept) is still stated for areas BELOW the sentinel; "
+        "its extension to areas equal to it (infinite) is not stated as a theorem (T14 gives it pass by pass). "
+        "Still open: the same condition expressed on the INPUT coordinates alone (which areas are recomputed to what depends on the whole run) -- "
         "compared with the model only (stream `wild`)",
         "T10 (vw_threshold) now holds for any arithmetic on a linear order, i.e. for the COMPUTED areas and the computed eps*eps; what it cannot say is how a computed "
         "area relates to the exact one: an exact area within an ulp of eps^2 may fall on either side (model and code agree bit for bit there: correspondence)",
+        "T13 (ties in Visvalingam): every result of visvalingamAll is proved to be a run with some choice among equally small triangles (soundness of what the "
+        "correspondence check accepts) and the code's own run is one; that the level-by-level enumeration with merged states returns ALL such runs when it does "
+        "not give up (completeness) is not proved -- a missing run would only show as a correspondence disagreement, never as an accepted wrong result. The "
+        "Track-level model (vwTrk) is the code's own run only: for another run the harness checks dict / uid / tid / base / no_data_value against the model "
+        "(they do not depend on the run) and positions / feature rows of the kept observations against the input",
     ]
     modelled = ("util/geometry.py distance_to_segment (l == 0 branch, normalised scalar product, clamp to the segment's box), "
                 "triangle_area, aire_visval; algo/simplification.py douglas_peucker (n <= 2 base case, first farthest fix by strict >, "
                 "dmax < eps, split L[0:imax] / L[imax:n], recursion, concatenation) and visvalingam (eps = eps * eps -- b704eae; `eps **= 2` before --, '@aire' column with NaN at "
-                "both ends, Operator.ARGMIN with its initial minimum float('inf') (68863c7; 1e300 before), break on area > eps, removal, two neighbour updates). "
+                "both ends, Operator.ARGMIN with its initial minimum float('inf') (68863c7; 1e300 before) and its `idmin = None` / `val < minimum or (idmin is None and val == minimum)` scan (b728412; "
+                "`idmin = 0` / `val < minimum` before: a column [nan, inf, inf] answered 0), break on area > eps, removal, two neighbour updates). "
+                "The freedom left by ties in Visvalingam (Model/SimplifyTie.lean): vwBody (the loop body for an arbitrary index), tieIds (ARGMIN's answer and every index "
+                "whose '@aire' entry equals it, when a minimum was found), vwNext / VReach / VwAnyResult (the runs with any choice among equally small triangles), "
+                "visvalingamAll (their level-by-level enumeration, run by the driver: command vwall). "
                 "On the Track object (Model/SimplifyTrack.lean): simplify(track, tolerance, mode, verbose) dispatch for every mode "
                 "(1, 2 modelled; 3 squaring and 4..8 optimalSimplification named, not modelled; others NameError); douglas_peucker's "
                 "Track(L) / Track([L[0], L[n-1]], uid, tid, base) / Track(L[0:imax], ...) + Track(L[imax:n], ...) with Track.__add__'s "
@@ -200,10 +294,15 @@ class P(Prop):
                 "the loop on that column of the feature rows (getObsAnalyticalFeature, C04's removeObs), removeAnalyticalFeature('@aire') with its index shift. "
                 "Attributes and entry points (Model/SimplifyTrack.lean, end): the Track attribute no_data_value that TrackReader.readFromFile sets (simplifyN: never read by "
                 "simplify/douglas_peucker/visvalingam -- removeNoDataValues is not on the path --, None on a Douglas-Peucker result through Track.__init__, the input's on "
-                "Visvalingam's copy); core/network.py Network.simplify (netSimplify: simplify on every edge geometry in insertion order, first exception ends the call). "
+                "Visvalingam's copy); core/network.py Network.simplify (netSimplify: simplify on every edge geometry in insertion order, first exception ends the call); "
+                "core/track_collection.py TrackCollection.simplify(tolerance, mode=1) as repaired by 039f340 (collSimplify: output = self.copy() -- a new collection of deep copies --, "
+                "output[i] = simplify(output[i], tolerance, mode) in the collection's order, return output; default mode 1; first exception ends the call; an empty collection never "
+                "reaches the dispatcher). "
                 "The positions' class (ENUCoords / GeoCoords / ECEFCoords) only matters through getX()/getY(), the first two stored components for all three (harness: the "
                 "class of the returned positions is the input's). The tolerant ENUCoords.__eq__ (1e-4 per axis) is NOT on the path: the model compares coordinates exactly")
-    trusted = [               "Track.copy is a deep copy (the model is functional: it cannot write its input; the harness compares a full snapshot of the input "
+    trusted = [               "TrackCollection.copy() makes a new collection of Track.copy() of every track (the model is functional; the harness checks on every `coll` case that the caller's "
+               "collection still holds the same Track objects, that their full snapshots are unchanged and that no Track / Obs object of the result is one of the caller's)",
+               "Track.copy is a deep copy (the model is functional: it cannot write its input; the harness compares a full snapshot of the input "
                "track before and after every call: observations' identity, positions, times, feature rows, feature dict, uid/tid/base)",
                "z coordinates and timestamps are not in the model (the algorithms never read them); the harness checks they travel unchanged",
                "a track made by TrackReader.readFromFile is taken as the reader made it (what the reader does with blank / NA fields is C13's model, TV.TextIO): the harness "
@@ -214,7 +313,7 @@ class P(Prop):
                "feature rows are as long as the feature dict says (C01's invariant)",
                "CPython's recursion limit (1000 frames) is outside the model: douglas_peucker recurses once per split level, T3 proves the depth is at most len(track), "
                "and a track of more than ~1000 fixes shaped so that every split peels one fix raises RecursionError (findings/C16.json, class dp-recursion-depth; "
-               "the harness generates tracks of at most 300 fixes)"]
+               "the harness generates split chains of at most ~800 levels: deep-* tracks)"]
     rule = ("[list-level streams] tracks of 1..9 fixes on integer lattices of side 2..6 (collinear runs, consecutive duplicates, revisited positions, closed loops "
             "forced with stated probabilities), quarter-step dyadic and 2-decimal float tracks; tolerances 1e-3..1e3 (ints and floats), random "
             "3-digit tolerances over 1e-6..1e6, tolerances far above any extent up to the largest double (1e154..1.797e308: eps*eps is infinite in Visvalingam) and tolerances equal to the float distance of a fix to the chord (the dmax == eps boundary); every fix carries its "
@@ -239,6 +338,21 @@ class P(Prop):
             "(5e-324..1e-30: eps*eps underflows to 0 in Visvalingam); 6 % of the `trk` calls pass the tolerance as numpy.float64. [stream `mode`] also mode given as float / bool. "
             "[stream `wild`] coordinates outside any ENU frame (1e101..1e308, inf, NaN, denormals; squares overflow, areas reach ARGMIN's sentinel): the oracle's "
             "domain is finite coordinates up to 1e100 (ENU metres), beyond it only model and code are compared. "
+            "[deep split chains, stream `trk`] 8 (quick) / 48 (thorough) tracks of 120..1040 fixes shaped so that Douglas-Peucker's recursion is 120..800 levels deep "
+            "(collinear oscillation of decreasing amplitude, constant zig-zag, boustrophedon survey of 120..520 lines, oscillation of growing amplitude; either axis, "
+            "closed or not), tolerance below the spacing (nothing may be dropped) or 0.1 / 3 / 30 times that; 80 % Douglas-Peucker through every entry point, 20 % Visvalingam. "
+            "[ties] Visvalingam's result is compared with the model's own run and, when different, accepted iff it is one of the runs with another choice among equally "
+            "small triangles (visvalingamAll, tracks of <= 60 fixes, up to 130 / 32 states per level; T13) -- as Douglas-Peucker's is with dpAllFuel (T7). "
+            "[stream `coll`: TrackCollection.simplify, always generated since 039f340] every collection of 0, 1, 2 tracks from a pool of six (0, 1, 2, 3, 5 fixes -- a closed loop --, "
+            "a reader-like track whose first fix is a placeholder at no_data_value) x 11 mode forms (argument not given = default 1; 1, 2 positional / as float / by keyword; the refused "
+            "modes 0, -1, 9, 11) x tolerances {1, 3.5}; 2500 (quick) / 20000 (thorough) random collections of 0..6 tracks of the `trk` generator (a third cut to 0..2 fixes, 12 % of "
+            "10..300 fixes; features, z, unsorted / repeated timestamps, no_data_value with placeholder fixes, Geo / ECEF positions), one tolerance per collection. Compared with "
+            "collSimplify track by track as `trk` cases are (ties accepted through dpAllFuel / visvalingamAll per track), number of tracks, errors (NameError, AnalyticalFeatureError "
+            "of an empty track under Visvalingam), caller's collection and tracks unchanged, no object shared with the result. Oracle: for modes 1 / 2 / default every returned track "
+            "is judged as the Track returned by simplify() is; the call may fail only if some track is outside the statement's domain. "
+            "[well-formedness] mutate() and shrink() only propose cases the harness can build (parallel lists of equal length; a CSV description that the reader "
+            "can honour: csv_ok); a case whose INPUT cannot be built is answered {'harness': why} by impl(): silent in the oracle, a disagreement (never a failing "
+            "input) in the correspondence check when the case is well formed. "
             "non-trivial = at least 3 fixes (a fix can be dropped)")
 
     # ---------------------------------------------------------------- setup
@@ -256,6 +370,8 @@ class P(Prop):
         from tracklib.io.track_format import TrackFormat
         from tracklib.core import network as NW
         self.GEO, self.ECEF, self.Reader, self.Format, self.NW = GeoCoords, ECEFCoords, TrackReader, TrackFormat, NW
+        from tracklib.core.track_collection import TrackCollection
+        self.TC = TrackCollection
         import numpy
         self.np = numpy
         self.tracklib = tracklib
@@ -276,7 +392,9 @@ class P(Prop):
 
     # ---------------------------------------------------------------- generators
     def exhaustive_scopes(self, tier):
-        extra = ["every track of 3 fixes on the lattice {0, 3e-5, 6e-5}^2 (all differences below the 1e-4 of ENUCoords.__eq__) x tolerances "
+        extra = ["TrackCollection.simplify: every collection of 0, 1, 2 tracks from a pool of six tracks (0, 1, 2, 3, 5, 4 fixes) x 11 mode forms (default, 1, 2 positional / float / "
+                 "keyword, refused modes 0, -1, 9, 11) x tolerances {1, 3.5}",
+                 "every track of 3 fixes on the lattice {0, 3e-5, 6e-5}^2 (all differences below the 1e-4 of ENUCoords.__eq__) x tolerances "
                  "{1.5e-5, 3e-5, 4.5e-5} x {Douglas-Peucker, Visvalingam} through simplify()",
                  "simplify(track, tol, mode) for every mode in -2..11: which function the dispatcher calls",
                  "every track of 2 and of 3 fixes on the lattice {0,1}^2 as a Track object (two features, uid/tid/base set) x tolerances {0.5, 1} x "
@@ -394,6 +512,57 @@ class P(Prop):
             pts = [(ox + p[0] * sc, oy + p[1] * sc) for p in pts]
             return [p[0] for p in pts], [p[1] for p in pts], "long-small-" + shape, sc
         return [p[0] for p in pts], [p[1] for p in pts], "long-" + shape, 1
+
+    def deep_track(self, rng, min_depth=0):
+        """several hundred fixes shaped so that Douglas-Peucker's split chain is DEEP (the farthest fix from the chord is next to an end,
+        the split L[0:imax] / L[imax:n] peels one or two fixes per level): the recursion is then 100..800 levels deep instead of the
+        ~log2(n) of a balanced track -- a collinear oscillation around a point with decreasing amplitude (depth ~ n), a constant zig-zag
+        (~0.85 n), a boustrophedon survey of parallel lines run alternately in both directions, only the line ends recorded (~ n/2), an
+        oscillation of growing amplitude (~ n/2). The tolerance is below the spacing: every corner deviates, nothing may be dropped.
+        (Depth stays below ~800: CPython's own limit of 1000 frames is the listed finding dp-recursion-depth.)"""
+        shape = rng.choice(["oscillation", "zigzag", "survey", "growing"])
+        depth = rng.randrange(max(120, min_depth), 801)
+        unit = rng.choice([1.0, 1.0, 0.5, 2.5, 10.0])
+        if shape == "oscillation":
+            n = depth + 1
+            pts = [(0.0, unit * ((-1) ** i) * (n - i)) for i in range(n)]
+            tol = 0.5 * unit
+        elif shape == "zigzag":
+            n = int(depth / 0.84) + 2
+            pts = [(unit * i, unit if i % 2 else 0.0) for i in range(n)]
+            tol = 0.3 * unit
+        elif shape == "survey":
+            depth = min(depth, 520)                        # (two fixes per level: keep the track below ~1000 fixes)
+            lines = depth + 1
+            w = rng.choice([20.0, 100.0])
+            pts = []
+            for k in range(lines):
+                pts += [(0.0, unit * k), (w * unit, unit * k)] if k % 2 == 0 else [(w * unit, unit * k), (0.0, unit * k)]
+            n = len(pts)
+            tol = 0.3 * unit
+        else:
+            depth = min(depth, 520)
+            n = 2 * depth + 1
+            pts = [(unit * i, unit * ((-1) ** i) * i) for i in range(n)]
+            tol = 0.5 * unit
+        if rng.random() < 0.25:
+            pts = [(b, a) for a, b in pts]                   # the same shape along the other axis
+        if rng.random() < 0.2:
+            pts[-1] = pts[0]                               # closed
+        return [p[0] for p in pts], [p[1] for p in pts], "deep-" + shape, tol
+
+    def deep_trk(self, rng, min_depth=0):
+        xs, ys, style, tol = self.deep_track(rng, min_depth)
+        n = len(xs)
+        algo = "dp" if rng.random() < 0.8 else "vw"
+        if algo == "vw" and n > 700:
+            xs, ys = xs[:700], ys[:700]
+            n = 700
+        names, rows = self.rand_table(rng, n)
+        return {"kind": "trk", "algo": algo, "xs": xs, "ys": ys, "tol": tol if rng.random() < 0.8 else tol * rng.choice([0.1, 3, 30]),
+                "uid": rng.choice([0, 7]), "tid": rng.choice([0, 9]), "base": None, "names": names, "rows": rows,
+                "via": rng.choice(["direct", "simplify", "simplify", "toplevel", "simplify_default"] if algo == "dp" else ["direct", "simplify"]),
+                "pre": [], "style": style}
 
     def rand_table(self, rng, n):
         """feature names and one row per fix; the first feature (when any) is the fix's index"""
@@ -519,8 +688,60 @@ class P(Prop):
         return {"kind": rng.choice(["dp", "vw"]), "xs": xs, "ys": ys, "tol": rng.choice([0.5, 1, 2, 1e10, 1e100, 1e150]),
                 "via": "direct", "af": False, "wild": True}
 
+    # ---- TrackCollection.simplify stream
+    COLL_POOL = [
+        {"xs": [], "ys": [], "uid": 0, "tid": 0, "base": None, "names": [], "rows": []},
+        {"xs": [2], "ys": [1], "uid": 1, "tid": 2, "base": None, "names": ["tag"], "rows": [[0]]},
+        {"xs": [0, 3], "ys": [0, 4], "uid": 7, "tid": 9, "base": 5, "names": ["tag", "w"], "rows": [[0, 2.5], [1, "nan"]]},
+        {"xs": [0, 2, 4], "ys": [0, 3, 0], "uid": 7, "tid": 9, "base": 5, "names": ["tag", "w"], "rows": [[0, 2.5], [1, 2.5], [2, 7]]},
+        {"xs": [0, 4, 4, 0, 0], "ys": [0, 0, 3, 3, 0], "uid": 0, "tid": 3, "base": None, "names": [], "rows": [[], [], [], [], []]},
+        {"xs": [-4, -4, 0, 2], "ys": [-4, -1, -1, -1], "zs": [-4, 0, 0, 0], "uid": 0, "tid": 7, "base": None, "names": ["q"],
+         "rows": [[0], [1], [2], [3]], "nodata": -4},
+    ]
+    COLL_MODES = [(None, None), (1, None), (2, None), (1, "float"), (2, "float"), (1, "kw"), (2, "kw"), (0, None), (-1, None), (9, None), (11, None)]
+
+    def coll_sub(self, sub, mode, tol):
+        """a `trk` sub-case of a collection: the track as it is put in the collection (built with Obs/Track), the algorithm the mode selects"""
+        c = dict(sub)
+        for f in ("src", "orphan", "tol_form", "net_pos"):
+            c.pop(f, None)
+        c.update(kind="trk", algo="vw" if mode == 2 else "dp", tol=tol, via="direct", pre=[], style=c.get("style", "lattice"))
+        return c
+
+    def mk_coll(self, subs, mode, form, tol):
+        return {"kind": "coll", "mode": mode, "mode_form": form, "tol": tol, "tracks": [self.coll_sub(t, mode, tol) for t in subs]}
+
+    def rand_coll(self, rng):
+        """a collection of 0..6 tracks (a third of them shorter than 3 fixes; a few long ones), one tolerance, every mode form: the default,
+        1, 2 (positional, keyword, float) and -- 6 % -- a mode the dispatcher refuses"""
+        r = rng.random()
+        k = 0 if r < 0.04 else (1 if r < 0.25 else rng.choice([2, 2, 3, 3, 4, 5, 6]))
+        subs = []
+        for _ in range(k):
+            t = self.rand_trk(rng, long=rng.random() < 0.12)
+            if rng.random() < 0.3:                           # shorter than 3 fixes
+                m = rng.choice([0, 1, 1, 2, 2, 2])
+                t = self.drop_fix(t, m, len(t["xs"])) if len(t["xs"]) > m else t
+            if "@aire" in t["names"]:
+                continue
+            if not t["xs"]:
+                t = dict(t, names=[], rows=[])
+            subs.append(t)
+        mode, form = rng.choice(self.COLL_MODES[:7] * 5 + self.COLL_MODES[7:])
+        tol = rng.choice(TOLS) if (not subs or rng.random() < 0.4) else rng.choice(subs)["tol"]
+        return self.mk_coll(subs, mode, form, tol)
+
     def cases(self, rng, tier):
         out = []
+        # TrackCollection.simplify: every collection of 0, 1, 2 tracks from a pool of six (0, 1, 2, 3, 5 fixes; a reader-like track with a
+        # placeholder first fix) x every mode form (default, 1, 2 positional / float / keyword, four refused modes) x two tolerances
+        pool = self.COLL_POOL
+        for subs in [[]] + [[a] for a in pool] + [[a, b] for a in pool for b in pool]:
+            for mode, form in self.COLL_MODES:
+                for tol in (1, 3.5):
+                    out.append(self.mk_coll(subs, mode, form, tol))
+        for _ in range(2500 if tier == "quick" else 20000):
+            out.append(self.rand_coll(rng))
         for m in range(-2, 12):
             out.append({"kind": "mode", "mode": m})
             out.append({"kind": "mode", "mode": m, "form": "float"})     # `mode == 1` is numeric equality: 1.0, True select like 1
@@ -540,6 +761,13 @@ class P(Prop):
             out.append(self.rand_trk(rng, long=True))
         for _ in range(1500 if tier == "quick" else 10000):
             out.append(self.wild_case(rng))
+        # deep split chains (several hundred fixes, recursion 120..800 levels deep): few -- each costs ~0.2-1 s --, spread over the list so
+        # that the engine's shards share them; the first two of a run are at least 300 / 500 levels deep
+        ndeep = 8 if tier == "quick" else 48
+        deep = [self.deep_trk(rng, 500 if i == 0 else (300 if i == 1 else 0)) for i in range(ndeep)]
+        step = max(1, len(out) // (ndeep + 1))
+        for i, c in enumerate(deep):
+            out.insert(min(len(out), (i + 1) * step + i), c)
         if self.listed(FINDING_AIRE):
             for _ in range(300):
                 c = self.rand_trk(rng)
@@ -597,6 +825,13 @@ class P(Prop):
         t = {"kind": k}
         if k == "mode":
             return t
+        if k == "coll":
+            ns = [len(c["xs"]) for c in case["tracks"]]
+            t["tracks"] = len(ns) if len(ns) < 4 else "4+"
+            t["coll_mode"] = "default" if case["mode"] is None else (str(case["mode"]) + ("/" + case["mode_form"] if case.get("mode_form") else ""))
+            t["coll_short_tracks"] = sum(1 for n in ns if n < 3)
+            t["coll_nodata"] = sum(1 for c in case["tracks"] if c.get("nodata") is not None)
+            return t
         if k in ("dp", "vw", "trk"):
             if case.get("wild"):
                 return {"kind": k, "wild": True}
@@ -627,6 +862,8 @@ class P(Prop):
     def nontrivial(self, case):
         if case["kind"] == "mode":
             return True
+        if case["kind"] == "coll":
+            return any(len(c["xs"]) >= 3 for c in case["tracks"])
         if case["kind"] in ("dp", "vw", "trk"):
             return len(case["xs"]) >= 3
         p = case["p"]
@@ -691,7 +928,7 @@ class P(Prop):
         got = [[o.position.getX(), o.position.getY(), o.position.getZ(), o.timestamp.toAbsTime()] for o in tr.getObsList()]
         want = [[fv(x), fv(y), z, t] for x, y, z, t in zip(case["xs"], case["ys"], zs, ts)]
         if not same_rows(got, want) or tr.no_data_value != nd or tr.getListAnalyticalFeatures() != list(names):
-            raise RuntimeError("the CSV reader did not produce the track described by the case: %s" % (got,))
+            raise HarnessCase("the CSV reader did not produce the track described by the case: %s" % (got,))
         return tr
 
     def snapshot(self, tr):
@@ -719,7 +956,9 @@ class P(Prop):
             return case["tid"]
         return tid
 
-    def call(self, tr, algo, tol, via, net_pos=0):
+    def prepare(self, tr, algo, tol, via, net_pos=0):
+        """everything that has to exist before the call under test (the network around an edge geometry): harness plumbing.
+        Returns a thunk that makes the call of the property's entry point and nothing else"""
         S = self.S
         mode = S.MODE_SIMPLIFY_DOUGLAS_PEUCKER if algo == "dp" else S.MODE_SIMPLIFY_VISVALINGAM
         if via == "network":
@@ -729,17 +968,22 @@ class P(Prop):
             geoms = [self.mk_trk(OTHER_EDGE) for _ in range(net_pos)] + [tr]
             for i, g in enumerate(geoms):
                 net.addEdge(NW.Edge(i, g), NW.Node(2 * i, self.ENU(i, 0, 0)), NW.Node(2 * i + 1, self.ENU(i, 1, 0)))
-            net.simplify(tol, mode)
-            return net.EDGES[net_pos].geom
+            def run():
+                net.simplify(tol, mode)
+                return net.EDGES[net_pos].geom
+            return run
         if via == "simplify":
-            return S.simplify(tr, tol, mode)
+            return lambda: S.simplify(tr, tol, mode)
         if via == "simplify_kw":
-            return S.simplify(track=tr, tolerance=tol, mode=mode, verbose=False)
+            return lambda: S.simplify(track=tr, tolerance=tol, mode=mode, verbose=False)
         if via == "simplify_default":
-            return S.simplify(tr, tol)
+            return lambda: S.simplify(tr, tol)
         if via == "toplevel":
-            return self.tracklib.simplify(tr, tol, mode, False)
-        return S.douglas_peucker(tr, tol) if algo == "dp" else S.visvalingam(tr, tol)
+            return lambda: self.tracklib.simplify(tr, tol, mode, False)
+        return (lambda: S.douglas_peucker(tr, tol)) if algo == "dp" else (lambda: S.visvalingam(tr, tol))
+
+    def call(self, tr, algo, tol, via, net_pos=0):
+        return self.prepare(tr, algo, tol, via, net_pos)()
 
     def impl_mode(self, case):
         """which function does simplify(track, tol, mode) call? (the four candidates are replaced by recorders for the call)"""
@@ -772,7 +1016,12 @@ class P(Prop):
             return self.impl_mode(case)
         if k == "trk":
             return self.impl_trk(case)
-        tr = self.mk(case)
+        if k == "coll":
+            return self.impl_coll(case)
+        try:
+            tr = self.mk(case)
+        except (Exception, SystemExit) as e:
+            return {"harness": "the track of the case could not be built: %r" % (e,)}
         if case["via"] == "simplify":
             mode = self.S.MODE_SIMPLIFY_DOUGLAS_PEUCKER if k == "dp" else self.S.MODE_SIMPLIFY_VISVALINGAM
             res = self.S.simplify(tr, case["tol"], mode)
@@ -780,6 +1029,8 @@ class P(Prop):
             res = self.S.douglas_peucker(tr, case["tol"])
         else:
             res = self.S.visvalingam(tr, case["tol"])
+        if not isinstance(res, self.Track):
+            return {"err": "err:not-a-track", "detail": "the call returned %r" % (res,)}
         kept, xy = [], []
         for j in range(res.size()):
             o = res.getObs(j)
@@ -791,23 +1042,34 @@ class P(Prop):
         return {"kept": kept, "xy": xy, "input_size_after": tr.size()}
 
     def impl_trk(self, case):
-        tr = self.mk_trk(case)
-        before = self.snapshot(tr)
-        other = None
-        for a, t, which in case.get("pre", []):
-            if which == "same":
-                target = tr
-            else:
-                if other is None:
-                    other = self.mk_trk(OTHER_EDGE)
-                target = other
-            try:
-                self.call(target, a, t, "direct")
-            except Exception:
-                pass                                          # an earlier call that fails is the business of its own case
-        tol = self.np.float64(case["tol"]) if case.get("tol_form") == "np64" else case["tol"]
-        res = self.call(tr, case["algo"], tol, case["via"], case.get("net_pos", 0))
-        after = self.snapshot(tr)
+        # --- building the input (and the state left by earlier calls): harness plumbing, never judged as the implementation's failure
+        try:
+            tr = self.mk_trk(case)
+            before = self.snapshot(tr)
+            other = None
+            for a, t, which in case.get("pre", []):
+                if which == "same":
+                    target = tr
+                else:
+                    if other is None:
+                        other = self.mk_trk(OTHER_EDGE)
+                    target = other
+                try:
+                    self.call(target, a, t, "direct")
+                except Exception:
+                    pass                                      # an earlier call that fails is the business of its own case
+            tol = self.np.float64(case["tol"]) if case.get("tol_form") == "np64" else case["tol"]
+            run = self.prepare(tr, case["algo"], tol, case["via"], case.get("net_pos", 0))
+        except (Exception, SystemExit) as e:
+            return {"harness": e.args[0] if isinstance(e, HarnessCase) else "the input of the case could not be built: %r" % (e,)}
+        # --- the call under test: an exception from here on is the implementation's
+        res = run()
+        if not isinstance(res, self.Track):
+            return {"err": "err:not-a-track", "detail": "the call returned %r" % (res,)}
+        return self.trk_out(case, res, before, self.snapshot(tr))
+
+    def trk_out(self, case, res, before, after):
+        """the canonical description of the Track `res` returned for the input track whose snapshots before / after the call are given"""
         out = self.snapshot(res)
         inp_ids = set(before["ids"])
         base = out["base"]
@@ -822,7 +1084,79 @@ class P(Prop):
                 "input_changed": self.snap_diff(before, after),
                 "shares_obs": bool(out["ids"]) and all(i in inp_ids for i in out["ids"])}
 
+    def impl_coll(self, case):
+        """TrackCollection(tracks).simplify(tolerance[, mode]): the tracks returned, one description each (as for a `trk` case), whether
+        the caller's collection / tracks were written, and whether the result holds objects of the caller's (it is made of copies)"""
+        try:
+            tracks = [self.mk_trk(c) for c in case["tracks"]]
+            coll = self.TC(tracks)
+            before = [self.snapshot(t) for t in tracks]
+            tol, m, form = case["tol"], case["mode"], case.get("mode_form")
+            if m is None:
+                run = lambda: coll.simplify(tol)
+            elif form == "kw":
+                run = lambda: coll.simplify(tolerance=tol, mode=m)
+            elif form == "float":
+                run = lambda: coll.simplify(tol, float(m))
+            else:
+                run = lambda: coll.simplify(tol, m)
+        except (Exception, SystemExit) as e:
+            return {"harness": e.args[0] if isinstance(e, HarnessCase) else "the collection of the case could not be built: %r" % (e,)}
+        res = run()
+        if not isinstance(res, self.TC):
+            return {"err": "err:not-a-collection", "detail": "the call returned %r" % (res,)}
+        after = [self.snapshot(t) for t in tracks]
+        now = coll.getTracks()
+        changed = None
+        if len(now) != len(tracks) or any(a is not b for a, b in zip(now, tracks)):
+            changed = "the list of tracks of the caller's collection was modified"
+        for i in range(len(tracks)):
+            if changed is None and self.snap_diff(before[i], after[i]):
+                changed = "track %d of the caller's collection: %s" % (i, self.snap_diff(before[i], after[i]))
+        got = res.getTracks()
+        if any(not isinstance(r, self.Track) for r in got):
+            return {"err": "err:not-a-track", "detail": "the returned collection holds %r" % ([type(r).__name__ for r in got],)}
+        inp_obs = set(i for b in before for i in b["ids"])
+        alias = res is coll or any(any(r is t for t in tracks) for r in got) or any(id(o) in inp_obs for r in got for o in r.getObsList())
+        outs = []
+        for i, r in enumerate(got):
+            if i < len(tracks):
+                o = self.trk_out(case["tracks"][i], r, before[i], after[i])
+            else:
+                b = self.snapshot(r)
+                o = self.trk_out({"uid": 0, "tid": 0}, r, b, b)
+            outs.append(o)
+        return {"size": len(got), "tracks": outs, "input_changed": changed, "aliases_input": alias}
+
     # ---------------------------------------------------------------- model
+    def geom_tokens(self, c):
+        """the eight tokens that describe a Track to the driver (positions, uid, tid, base, feature names, columns, rows)"""
+        fl = lambda l: ",".join(fbits(fv(v)) for v in l) if l else "_"
+        rows = ";".join(fl(r) for r in c["rows"]) if (c["rows"] and c["names"]) else "_"
+        named = c["names"] and not c.get("orphan")
+        return "%s %s %d %d %s %s %s %s" % (
+            fl(c["xs"]), fl(c["ys"]), c["uid"], c["tid"],
+            "_" if c["base"] is None else str(c["base"]), ",".join(c["names"]) if named else "_",
+            ",".join(str(j) for j in range(len(c["names"]))) if named else "_", rows)
+
+    def tie_request(self, c):
+        """the driver line that enumerates the runs with another choice among ties for the track of a `trk` (sub-)case, or None"""
+        fl = lambda l: ",".join(fbits(fv(v)) for v in l) if l else "_"
+        if c["algo"] == "dp" and 1 <= len(c["xs"]) <= 9:
+            return "C16.dp %s %s %s" % (fbits(c["tol"]), fl(c["xs"]), fl(c["ys"]))
+        if c["algo"] == "vw" and 3 <= len(c["xs"]) <= VW_ALL_MAX_N:
+            return "C16.vwall %s %s %s %d" % (fbits(c["tol"]), fl(c["xs"]), fl(c["ys"]), vw_cap(len(c["xs"])))
+        return None
+
+    def requests_coll(self, case):
+        subs = case["tracks"]
+        head = "C16.coll %s %s %d" % ("_" if case["mode"] is None else str(int(case["mode"])), fbits(case["tol"]), len(subs))
+        toks = [self.geom_tokens(c) + " " + ("_" if c.get("nodata") is None else fbits(c["nodata"])) for c in subs]
+        lines = [" ".join([head] + toks)]
+        if case["mode"] in (None, 1, 2):
+            lines += [l for l in (self.tie_request(c) for c in subs) if l]
+        return lines
+
     def requests(self, case):
         k = case["kind"]
         if k == "dist":
@@ -833,6 +1167,8 @@ class P(Prop):
         if k == "mode":
             return ["C16.mode %d" % case["mode"]]
         fl = lambda l: ",".join(fbits(fv(v)) for v in l) if l else "_"
+        if k == "coll":
+            return self.requests_coll(case)
         if k == "trk":
             algo = case["algo"]
             rows = ";".join(fl(r) for r in case["rows"]) if (case["rows"] and case["names"]) else "_"
@@ -854,7 +1190,11 @@ class P(Prop):
                 line = "C16.trk %s %s" % (head, geom(case, rows))
             if algo == "dp" and len(case["xs"]) <= 9:      # the runs reachable with another choice among equally far fixes
                 return [line, "C16.dp %s %s %s" % (fbits(case["tol"]), fl(case["xs"]), fl(case["ys"]))]
+            if algo == "vw" and 3 <= len(case["xs"]) <= VW_ALL_MAX_N:   # ... among equally small triangles (T13)
+                return [line, "C16.vwall %s %s %s %d" % (fbits(case["tol"]), fl(case["xs"]), fl(case["ys"]), vw_cap(len(case["xs"])))]
             return [line]
+        if k == "vw" and 1 <= len(case["xs"]) <= VW_ALL_MAX_N:
+            return ["C16.vwall %s %s %s %d" % (fbits(case["tol"]), fl(case["xs"]), fl(case["ys"]), vw_cap(len(case["xs"])))]
         return ["C16.%s %s %s %s" % (k, fbits(case["tol"]), fl(case["xs"]), fl(case["ys"]))]
 
     def decode(self, case, replies):
@@ -872,6 +1212,8 @@ class P(Prop):
             raise ValueError("unsupported")
         if r.startswith("err:"):
             return {"err": ERRMAP.get(r, r)}
+        if k == "coll":
+            return self.decode_coll(case, replies)
         if k == "trk" and case["via"] == "network":
             r = r.split(" | ")[case.get("net_pos", 0)]      # the geometry of this case's edge
         parts = r.split(" ")
@@ -885,12 +1227,65 @@ class P(Prop):
                    "uid": int(parts[1]), "tid": int(parts[2]), "base": None if parts[3] == "_" else int(parts[3]),
                    "nodata": None if (len(parts) < 8 or parts[7] == "_") else bitsf(parts[7])}
             if len(replies) > 1 and not replies[1].startswith("err:") and replies[1] != "bad-request":
-                out["all"] = [idx(t) for t in replies[1].split(" ")[1].split(";")]
+                alls = replies[1].split(" ")[1]
+                if alls != "toomany":                       # (Visvalingam: too many tied states to enumerate -> only the code's own run)
+                    out["all"] = [idx(t) for t in alls.split(";")]
             return out
         out = {"kept": kept, "xy": [[fv(case["xs"][i]), fv(case["ys"][i])] for i in kept], "input_size_after": len(case["xs"])}
         if k == "dp":
             out["all"] = [idx(s) for s in parts[1].split(";")]
+        elif len(parts) > 1 and parts[1] != "toomany":
+            out["all"] = [idx(s) for s in parts[1].split(";")]
         return out
+
+    def decode_trk_reply(self, c, text, tie_reply=None):
+        """the driver's description of a returned Track (reply of trk / trkn, one part of net / coll) for the input track of the (sub-)case c"""
+        parts = text.split(" ")
+        idx = lambda s: [] if s == "_" else [int(t) for t in s.split(",")]
+        kept = idx(parts[0])
+        zs = c.get("zs") or [0] * len(c["xs"])
+        rows = [[]] * len(kept) if parts[6] == "_" else [[] if t == "_" else [bitsf(v) for v in t.split(",")] for t in parts[6].split(";")]
+        out = {"kept": kept, "xyz": [[fv(c["xs"][i]), fv(c["ys"][i]), zs[i]] for i in kept], "rows": rows,
+               "names": [] if parts[4] == "_" else parts[4].split(","), "cols": idx(parts[5]),
+               "uid": int(parts[1]), "tid": int(parts[2]), "base": None if parts[3] == "_" else int(parts[3]),
+               "nodata": None if (len(parts) < 8 or parts[7] == "_") else bitsf(parts[7])}
+        if tie_reply is not None and not tie_reply.startswith("err:") and tie_reply != "bad-request":
+            alls = tie_reply.split(" ")[1]
+            if alls != "toomany":
+                out["all"] = [idx(t) for t in alls.split(";")]
+        return out
+
+    def decode_coll(self, case, replies):
+        subs = case["tracks"]
+        r = replies[0]
+        texts = [] if r == "_" else r.split(" | ")
+        ties = [None] * len(subs)
+        if case["mode"] in (None, 1, 2):
+            j = 1
+            for i, c in enumerate(subs):
+                if self.tie_request(c):
+                    ties[i] = replies[j]
+                    j += 1
+        if len(texts) != len(subs):
+            raise ValueError("the driver returned %d tracks for %d" % (len(texts), len(subs)))
+        return {"size": len(texts), "tracks": [self.decode_trk_reply(c, t, ties[i]) for i, (c, t) in enumerate(zip(subs, texts))]}
+
+    def compare_coll(self, case, impl_out, model_out):
+        if "err" in impl_out or "err" in model_out:
+            if impl_out.get("err") == model_out.get("err"):
+                return None
+            return "impl=%s model=%s" % ({k: impl_out[k] for k in impl_out if k != "tracks"}, {k: model_out[k] for k in model_out if k != "tracks"})
+        if impl_out["size"] != model_out["size"]:
+            return "TrackCollection.simplify returned %d tracks, the model %d" % (impl_out["size"], model_out["size"])
+        if impl_out["input_changed"]:
+            return "the caller's collection was modified: %s" % impl_out["input_changed"]
+        if impl_out["aliases_input"]:
+            return "the returned collection holds Track / Obs objects of the caller's collection (the model: simplified COPIES)"
+        for i, c in enumerate(case["tracks"]):
+            msg = self.compare_trk(c, impl_out["tracks"][i], model_out["tracks"][i])
+            if msg:
+                return "track %d of the collection: %s" % (i, msg)
+        return None
 
     def compare_trk(self, case, impl_out, model_out):
         if "err" in impl_out or "err" in model_out:
@@ -918,6 +1313,23 @@ class P(Prop):
             if impl_out["nodata"] is not None:
                 return "no_data_value of a Douglas-Peucker result: impl=%r model=None" % (impl_out["nodata"],)
             return self.classes_ok(case, impl_out)
+        if case["algo"] == "vw" and impl_out["kept"] in model_out.get("all", []):
+            # another choice among equally small triangles (free in the property; T13: every such run is a sub-sequence with both ends).
+            # The Track around the observations does not depend on the run: feature dict, uid/tid/base, no_data_value are the model's;
+            # the observations returned must be the input's (position, feature row)
+            for f in ("names", "cols", "uid", "tid", "base", "nodata"):
+                if impl_out[f] != model_out[f]:
+                    return "%s of the result: impl=%r model=%r" % (f, impl_out[f], model_out[f])
+            n = len(case["xs"])
+            kept = impl_out["kept"]
+            if all(isinstance(i, int) and 0 <= i < n for i in kept):
+                zs = case.get("zs") or [0] * n
+                if not same_rows(impl_out["xyz"], [[fv(case["xs"][i]), fv(case["ys"][i]), zs[i]] for i in kept]):
+                    return "positions of the kept observations differ from the input's: %s" % (impl_out["xyz"],)
+                want = [[fv(v) for v in case["rows"][i]] if case["names"] else [] for i in kept]
+                if not case.get("orphan") and not same_rows(impl_out["rows"], want):
+                    return "feature rows of the kept observations differ from the input's: %s" % (impl_out["rows"],)
+            return self.classes_ok(case, impl_out)
         return "kept indices: impl=%s model=%s" % (impl_out["kept"], model_out["kept"])
 
     def classes_ok(self, case, impl_out):
@@ -928,8 +1340,15 @@ class P(Prop):
         return None
 
     def compare(self, case, impl_out, model_out):
+        if isinstance(impl_out, dict) and "harness" in impl_out:
+            # the harness could not build the input: nothing was run. Reported (as a disagreement, never as a failing input) when the
+            # case is one the generators stand for -- then the plumbing or a function it relies on (Track/Obs constructors,
+            # createAnalyticalFeature, the CSV reader) no longer does what the check was written against
+            return ("harness: %s" % impl_out["harness"]) if well_formed(case) else None
         if case["kind"] == "trk":
             return self.compare_trk(case, impl_out, model_out)
+        if case["kind"] == "coll":
+            return self.compare_coll(case, impl_out, model_out)
         if case["kind"] == "mode":
             return None if impl_out.get("calls") == model_out.get("calls") else "simplify(mode=%s) called %s, the model dispatches to %s" % (
                 case["mode"], impl_out.get("calls", impl_out), model_out.get("calls"))
@@ -951,14 +1370,21 @@ class P(Prop):
             return "the input track was modified: size %s" % impl_out["input_size_after"]
         if impl_out["kept"] == model_out["kept"]:
             return None if same_rows(impl_out["xy"], model_out["xy"]) else "positions differ: impl=%s model=%s" % (impl_out["xy"], model_out["xy"])
-        if case["kind"] == "dp" and impl_out["kept"] in model_out["all"]:
-            # another choice among equally far fixes: a legitimate Douglas-Peucker run (the property leaves the tie free)
+        if impl_out["kept"] in model_out.get("all", []):
+            # another choice among equally far fixes (Douglas-Peucker, T7) / among equally small triangles (Visvalingam, T13): a
+            # legitimate run, the property leaves the tie free; the positions are the oracle's business
             return None
         return "kept indices: impl=%s model=%s" % (impl_out["kept"], model_out["kept"])
 
     # ---------------------------------------------------------------- oracle (transfer)
     def spec(self, case, out):
         k = case["kind"]
+        if isinstance(out, dict) and "harness" in out:
+            return None                                      # the input was not built: nothing to judge (see compare)
+        if k in ("dp", "vw", "trk", "coll") and not well_formed(case):
+            return None                                      # not an input: lists of different lengths, a CSV description no file yields
+        if k == "coll":
+            return self.spec_coll(case, out)
         if k == "dist":
             if "err" in out:
                 return "distance_to_segment%s raised %s" % (tuple(case["p"]), out["err"])
@@ -1043,11 +1469,44 @@ class P(Prop):
                         tol, i, (xs[i], ys[i]), math.sqrt(d2), kept)
         return None
 
+    def in_domain(self, c):
+        """is the track of the `trk` (sub-)case one the statement quantifies over: >= 2 fixes, finite ENU-scale coordinates, positive tolerance"""
+        return (c["tol"] > 0 and len(c["xs"]) >= 2
+                and all(math.isfinite(fv(v)) and abs(fv(v)) <= 1e100 for v in c["xs"] + c["ys"]))
+
+    def spec_coll(self, case, out):
+        """TrackCollection.simplify(tolerance[, mode]) with a mode that selects Douglas-Peucker (1, the default) or Visvalingam (2): the track
+        returned for EVERY track of the collection is judged exactly as the Track returned by simplify(track, tolerance, mode) is (kind `trk`);
+        the call as a whole may only fail if some track is outside the statement's domain (fewer than 2 fixes, non-finite coordinates)"""
+        subs = case["tracks"]
+        m = 1 if case["mode"] is None else case["mode"]
+        if m not in (1, 2) or not case["tol"] > 0:
+            return None                                      # other modes / non-positive tolerances: outside the statement
+        dom = [self.in_domain(c) for c in subs]
+        if "err" in out:
+            if subs and all(dom):
+                return "TrackCollection.simplify(%r%s) raised %s (%s) on a collection of %d track(s) of >= 2 fixes, the first one %s" % (
+                    case["tol"], "" if case["mode"] is None else ", %r" % (case["mode"],), out["err"], out.get("detail", ""), len(subs),
+                    list(zip(subs[0]["xs"], subs[0]["ys"])))
+            return None
+        for i, c in enumerate(subs):
+            if not dom[i]:
+                continue
+            if i >= len(out["tracks"]):
+                return "TrackCollection.simplify returned %d track(s) for a collection of %d: nothing for track %d" % (out["size"], len(subs), i)
+            msg = self.spec(c, dict(out["tracks"][i], input_changed=None))
+            if msg:
+                return "track %d of the collection: %s" % (i, msg)
+        if out["input_changed"] and any(dom):
+            return "TrackCollection.simplify modified its input: %s" % out["input_changed"]
+        return None
+
     # ---------------------------------------------------------------- known-finding classes
     def classify(self, case, impl_out, msg):
-        """'vw-area-reaches-argmin-sentinel': Visvalingam on a track three fixes of which span a triangle whose float area is infinite
-        or NaN (coordinates ~1e154 and more): Operator.ARGMIN's initial minimum `float('inf')` (1e300 before 68863c7) is then never
-        undercut, it answers index 0 and the first fix is removed (TV.C16.vw_sentinel_first_pass). Excluded by the hypothesis `hbig`
+        """(The entry point TrackCollection.simplify is repaired -- 039f340 -- and has no class: `coll` cases are judged like any other.)
+        'vw-area-reaches-argmin-sentinel': Visvalingam on a track three fixes of which span a triangle whose float area is infinite
+        or NaN (coordinates ~1e154 and more): when a pass finds only NaN in the column Operator.ARGMIN records no index, answers 0 and the
+        first fix is removed (TV.C16.vw_sentinel_first_pass; since b728412 an infinite area is found, TV.C16.vw_first_pass_found). Excluded by the hypothesis `hbig`
         of TV.C16.vw_sublist_ends; such coordinates are outside the oracle's domain (> 1e100) and only produced by the `wild` stream
         (correspondence).
         'vw-user-feature-named-aire': the input track has a feature called '@aire' (the name of Visvalingam's temporary column):
@@ -1064,14 +1523,14 @@ class P(Prop):
             return FINDING_AIRE
         if case.get("kind") == "trk" and case.get("orphan") and case.get("names") and "feature values" in (msg or ""):
             return FINDING_ORPHAN
-        if not finite_case(case):
-            return "vw-area-reaches-argmin-sentinel"
-        if all(abs(fv(v)) <= 1e100 for v in case["xs"] + case["ys"]):
-            return None                                      # every area is below 1e201
+        if finite_case(case) and all(abs(fv(v)) <= 1e100 for v in case["xs"] + case["ys"]):
+            return None                                      # every area is a number below 1e201
+        # since b728412 an infinite area is found by ARGMIN (it equals the start value): only a NaN area -- inf - inf, 0 * inf, a NaN
+        # coordinate -- can leave a pass without minimum
         pts = [(float(fv(x)), float(fv(y))) for x, y in zip(case["xs"], case["ys"])]
         for a, b, c in itertools.combinations(pts, 3):
             area = 0.5 * abs((b[0] - a[0]) * (c[1] - b[1]) - (c[0] - b[0]) * (b[1] - a[1]))
-            if not area < float("inf"):
+            if area != area:
                 return "vw-area-reaches-argmin-sentinel"
         return None
 
@@ -1083,8 +1542,8 @@ class P(Prop):
         if case["kind"] == "trk":
             c["rows"] = [list(r) for r in case["rows"][:i] + case["rows"][j:]]
             if c["rows"] and c["names"]:
-                for j, r in enumerate(c["rows"]):
-                    r[0] = j                                # the first feature stays the index
+                for m, r in enumerate(c["rows"]):
+                    r[0] = m                                # the first feature stays the index
             if case.get("zs"):
                 c["zs"] = case["zs"][:i] + case["zs"][j:]
             if case.get("ts"):
@@ -1092,6 +1551,53 @@ class P(Prop):
         return c
 
     def shrink(self, case):
+        """smaller variants; only well-formed ones (a variant the harness cannot build is not an input)"""
+        for c in self._shrink(case):
+            if well_formed(c):
+                yield c
+
+    def mutate(self, case, rng):
+        """neighbours for the failing-input search; only well-formed ones, inside the domain the case was generated in"""
+        for c in self._mutate(case, rng):
+            if well_formed(c):
+                yield c
+
+    def _shrink_coll(self, case):
+        subs = case["tracks"]
+        for i in range(len(subs)):
+            yield dict(case, tracks=subs[:i] + subs[i + 1:])
+        if case.get("mode_form"):
+            yield dict(case, mode_form=None)
+        if case["mode"] is None:
+            yield self.mk_coll(subs, 1, None, case["tol"])
+        for i, c in enumerate(subs):
+            for c2 in self._shrink(c):
+                if c2.get("via") == "direct" and c2["tol"] == case["tol"]:
+                    yield dict(case, tracks=subs[:i] + [c2] + subs[i + 1:])
+        for t in (1, 0.5, 2, 0.1, 10):
+            if case["tol"] != t and not isinstance(case["tol"], int):
+                yield self.mk_coll(subs, case["mode"], case.get("mode_form"), t)
+
+    def _mutate_coll(self, case, rng):
+        subs = case["tracks"]
+        for t in (case["tol"] * 0.5, case["tol"] * 2, 1, 0.5):
+            if math.isfinite(t) and t > 0:
+                yield self.mk_coll(subs, case["mode"], case.get("mode_form"), t)
+        for mode, form in self.COLL_MODES[:3]:
+            if mode != case["mode"]:
+                yield self.mk_coll(subs, mode, form, case["tol"])
+        for i, c in enumerate(subs[:4]):
+            for c2 in itertools.islice(self._mutate(c, rng), 0, 24):
+                if c2["tol"] == case["tol"]:
+                    yield dict(case, tracks=subs[:i] + [c2] + subs[i + 1:])
+        if subs:
+            yield dict(case, tracks=subs + [subs[0]])
+        yield dict(case, tracks=subs + [self.coll_sub(self.COLL_POOL[3], case["mode"], case["tol"])])
+
+    def _shrink(self, case):
+        if case["kind"] == "coll":
+            yield from self._shrink_coll(case)
+            return
         if case["kind"] not in ("dp", "vw", "trk"):
             return
         n = len(case["xs"])
@@ -1144,7 +1650,10 @@ class P(Prop):
             if r != case:
                 yield r
 
-    def mutate(self, case, rng):
+    def _mutate(self, case, rng):
+        if case["kind"] == "coll":
+            yield from self._mutate_coll(case, rng)
+            return
         if case["kind"] not in ("dp", "vw", "trk") or case.get("wild"):
             return
         n = len(case["xs"])
